@@ -68,7 +68,7 @@ Theorem C01_terminates :
   forall U, (forall u, In u starts -> In u U) ->
     (forall u code links l, site u = Doc code links -> In l links -> In (fst l) U) ->
   forall n s s', no_fail site maxredir -> reach site host in_scope maxredir starts conc s ->
-    nsteps_nc site host in_scope maxredir starts conc n s s' -> (n + mu maxredir U s' <= mu maxredir U s)%nat.
+    nsteps_nc site host in_scope maxredir starts conc n s s' -> (n + mu maxredir starts U s' <= mu maxredir starts U s)%nat.
 Proof. exact terminates. Qed.
 Print Assumptions C01_terminates.
 
